@@ -267,6 +267,7 @@ def run_harness(model, seed, n, outdir, extra=None, timeout=3000):
     env = go_env()
     env.setdefault("GOMEMLIMIT", "12GiB")
     env.setdefault("VERIF_CORPUS", os.path.join(VERIF, "corpus"))
+    env.setdefault("VERIF_REPO_DIR", REPO)
     rc, out, dt = sh(cmd, env=env, timeout=timeout, cwd=outdir)
     return rc, out, dt
 
